@@ -77,16 +77,28 @@ def run(ctx):
     #     main thread; Trace_Threads decides by identity (PolyUse requires the recorded processor to be alive and still its creator's) - the outcome of the
     #     dangling read itself is not what is judged (it is usually a stale but still mapped value).
     import json
+    # probe 2: the first use of the library in a process is eight threads creating their first polynomial at the same moment (SharedInit.tla: exactly one
+    #          process-lifetime processor, nobody sees it half built); afterwards the main thread writes every polynomial
+    for mod, c in (("SharedInit", "SharedInit_once.cfg"), ("SharedInit", "SharedInit_once_plain.cfg")):
+        r = tlc.run_tlc(mod, cfg=c, workdir=ctx.dir, workers=2)
+        if not tlc.expect_ok(ctx, r, c):
+            raise CheckBroken("SharedInit (%s) violates %s" % (c, r.violated))
+    for c, inv in (("SharedInit_none.cfg", "OneShared"), ("SharedInit_early.cfg", "NoHalfBuilt")):
+        rm = tlc.run_tlc("SharedInit", cfg=c, workdir=ctx.dir, workers=2)
+        if rm.violated != inv:
+            raise CheckBroken("design mutant %s not rejected by %s: %r" % (c, inv, rm))
+        ctx.add("spec_mutants_rejected", 1)
     for be, kind in cfgs:
-        exe = build.harness("h_threads", be, kind, extra=["-I", os.path.join(os.environ.get("VERIF_REPO", "/repo"), "src", "libtfhe")])
-        tf = os.path.join(ctx.dir, "probe-%s-%s.ndjson" % (be, kind))
+      exe = build.harness("h_threads", be, kind, extra=["-I", os.path.join(os.environ.get("VERIF_REPO", "/repo"), "src", "libtfhe")])
+      for probe, pcfg in ((1, "Trace_Threads_probe.cfg"), (2, "Trace_Threads.cfg")):
+        tf = os.path.join(ctx.dir, "probe%d-%s-%s.ndjson" % (probe, be, kind))
         with open(tf, "w") as f:
-            rc, _, err = sh([exe, "--probe", "1", "--seed", str(ctx.seed)], stdout=f, timeout=600)
+            rc, _, err = sh([exe, "--probe", str(probe), "--seed", str(ctx.seed)], stdout=f, timeout=600)
         if rc != 0:
-            ctx.violation("h_threads probe died on %s/%s rc=%s %s" % (be, kind, rc, err[-200:]), key="h_threads probe crash %s %s" % (be, kind))
+            ctx.violation("h_threads probe %d died on %s/%s rc=%s %s" % (probe, be, kind, rc, err[-200:]), key="h_threads probe crash %s %s" % (be, kind))
             continue
         n = sum(1 for _ in open(tf))
-        r = tlc.run_tlc("Trace_Threads", cfg="Trace_Threads_probe.cfg", env={"TRACE": tf}, workers=1, workdir=ctx.dir, timeout=600)
+        r = tlc.run_tlc("Trace_Threads", cfg=pcfg, env={"TRACE": tf}, workers=1, workdir=ctx.dir, timeout=600)
         if r.ok and r.depth == n + 1:
             ctx.add("events_validated", n); ctx.add("traces_validated_against_impl", 1)
             continue
@@ -94,11 +106,11 @@ def run(ctx):
             raise CheckBroken("TLC failed on the lifetime probe: %s" % r.error)
         k = max(1, r.depth or 1)
         ev = json.loads(table.nth_line(tf, k) or "{}")
-        if ev.get("e") == "PolyUse" and k == n:
+        if ev.get("e") == "PolyUse" and ev.get("tid") == 0:
             ctx.violation("a Lagrange polynomial created by a thread that has exited is used by another thread: the operation reads the destroyed per-thread FFT processor through the polynomial's precomp pointer (%s/%s; outcome of the dangling read this time: %s)" % (be, kind, ev.get("outcome")),
                           key="LagrangeHalfCPolynomial used after its creating thread exited reads that thread's destroyed FFT processor (precomp): backend=%s build=%s" % (be, kind), files=[tf])
         else:
-            ctx.violation("thread / object lifetime probe on %s/%s is not a behaviour of Trace_Threads: accepted %d of %d events, rejected %s" % (be, kind, k - 1, n, str(ev)[:300]), files=[tf])
+            ctx.violation("thread / object lifetime probe %d on %s/%s is not a behaviour of Trace_Threads: accepted %d of %d events, rejected %s" % (probe, be, kind, k - 1, n, str(ev)[:300]), files=[tf])
     # 3. "forall API lifecycles (new/use/export/import/delete in every order the API allows)": the lifecycle machine Life is checked exhaustively for a small
     #    budget, TLC then samples long behaviours of it, and h_life replays each on the library under the ledger; Trace_Life validates every step
     for kind in ("custom", "default"):
